@@ -27,14 +27,31 @@ class Ctx:
         self.tcache: dict[str, list | None] = {}
         self.tuple_helpers: dict[str, tuple[FuncInfo, list[Envelope]]] = {}
 
-    def helper_for(self, caller: FuncInfo):
+    def helper_for(self, caller: FuncInfo, caller_it: "Interp | None" = None):
         def helper_envelopes(call: ast.Call) -> list[Envelope] | None:
             for c in self.res.resolve_call(caller, call):
-                if c.kind == "repo" and c.func is not None and c.func.module.name.startswith("octave_mcp.mcp") and c.func.cls:
-                    fq = c.func.fqn
+                if c.kind == "repo" and c.func is not None and c.func.module.name.startswith("octave_mcp.mcp"):
+                    # keys that reach the helper's **kwargs from this call site (None: not known)
+                    hargs = c.func.node.args  # type: ignore[attr-defined]
+                    kw_keys: set[str] | None = None
+                    if hargs.kwarg is not None:
+                        named = {a.arg for a in hargs.args + hargs.kwonlyargs}
+                        kw_keys = set()
+                        for k in call.keywords:
+                            if k.arg is None:
+                                ks = caller_it.spread_keys(k.value) if caller_it is not None else None
+                                if ks is None:
+                                    kw_keys = None
+                                    break
+                                kw_keys |= ks
+                            elif k.arg not in named:
+                                kw_keys.add(k.arg)
+                    fq = c.func.fqn + ("" if hargs.kwarg is None else "|" + ("?" if kw_keys is None else ",".join(sorted(kw_keys))))
                     if fq not in self.cache:
                         self.cache[fq] = []  # recursion guard
-                        it = Interp(c.func, self.helper_for(c.func))  # helpers may wrap other helpers (recursion guard above)
+                        it = Interp(c.func, lambda _c: None)
+                        it.helper_envelopes = self.helper_for(c.func, it)  # helpers may wrap other helpers (recursion guard above)
+                        it.kwarg_keys = kw_keys
                         it.run()
                         envs = []
                         for kind, node, st, payload in it.events:
@@ -113,7 +130,8 @@ def check(run: Run) -> None:
     n_returns = 0
     for modname, qual, has_valid in TOOLS:
         fi = run.project.mod(modname).func(qual)
-        it = Interp(fi, ctx.helper_for(fi))
+        it = Interp(fi, lambda _c: None)
+        it.helper_envelopes = ctx.helper_for(fi, it)
         it.helper_tuples = ctx.tuples_for(fi)
         it.run()
         mod = fi.module
